@@ -69,14 +69,21 @@ def gen_scen(rng, idx):
             nop = "n" if q is None else "n:x" + q.encode().hex()
             ops.append(nop); mops.append(nop)
             if kind == "badtoken":
-                hdr = "%016x" % (int(TOKEN, 16) ^ (1 << rng.randrange(64))) + c
+                # 8 bytes that are not the token, followed by 0..40 more (or by nothing at all), and then silence: the
+                # server must close the carrier on the strength of the first 8 bytes
+                hdr = "%016x" % (int(TOKEN, 16) ^ (1 << rng.randrange(64))) + rng.choice(
+                    [c, c, "", c[:2], c[:14], c + "".join("%02x" % rng.randrange(256) for _ in range(rng.choice([1, 4, 24])))])
             elif kind == "short":
                 hdr = (TOKEN + c)[:2 * rng.randrange(0, 16)]
             else:
                 hdr = TOKEN + c
-            # header possibly fragmented
-            cut = rng.randrange(0, len(hdr) // 2 + 1)
-            for part in ([hdr[:2 * cut], hdr[2 * cut:]] if 0 < cut < len(hdr) // 2 else [hdr]):
+            # header possibly fragmented, or trickled byte by byte
+            if rng.random() < 0.15:
+                parts = [hdr[q:q + 2] for q in range(0, len(hdr), 2)]
+            else:
+                cut = rng.randrange(0, len(hdr) // 2 + 1)
+                parts = [hdr[:2 * cut], hdr[2 * cut:]] if 0 < cut < len(hdr) // 2 else [hdr]
+            for part in parts:
                 if part:
                     ops.append("r%d:x%s" % (i, part)); mops.append("r%d:x%s" % (i, part))
             if kind in ("good", "garbage"):
@@ -111,6 +118,18 @@ def gen_scen(rng, idx):
                 n = 2 * rng.choice([1, 1, 2, 3, 7, 50, 1000])
                 ops.append("r%d:x%s" % (i, s[pos:pos + n])); mops.append("r%d:x%s" % (i, s[pos:pos + n]))
                 pos += n
+            if not close_after and rng.random() < 0.12:
+                # many packets coalesced into ONE WebSocket message of several KiB (the model is given the same bytes in small
+                # pieces: message boundaries must not matter, C05_arrivals_concatenate)
+                bigmsg = ""
+                while len(bigmsg) < 2 * rng.choice([2100, 3000, 6000]):
+                    p = newpkt(rng.choice([10, 100, 400, 600]))
+                    bigmsg += prefix(len(p) // 2) + p
+                    carriers[i]["sent"].append(p)
+                    upn[0] += 1
+                ops.append("r%d:x%s" % (i, bigmsg))
+                for q in range(0, len(bigmsg), 800):
+                    mops.append("r%d:x%s" % (i, bigmsg[q:q + 800]))
             carriers[i]["sent"] += [p for end, p in pkts if end <= cutat]
             upn[0] += len([1 for end, p in pkts if end <= cutat])
             if ops and ops[-1].startswith("r%d:" % i):
@@ -287,63 +306,124 @@ def smux_frame(cmd, sid, data=b""):
     return struct.pack("<BBHI", 2, cmd, len(data), sid) + data
 
 
-def gen_move(rng, idx):
-    """1..3 client sessions (ClientID, KCP conversation, one smux stream, application bytes), each moving over several
-    carriers: sequentially, overlapping, or after an idle gap shorter than the retention; a new carrier re-sends
-    segments the old one already carried (as KCP does) and continues. Returns impl ops, model ops, meta."""
+def scen_id(idx, salt):
+    return "%08x" % (0xC5000000 | ((salt & 0xff) << 16) | (idx & 0xffff))
+
+
+def kcp_push_segments(wire_hex):
+    """what a carrier received downstream: encapsulation chunks -> KCP segments; returns [(conv, cmd, sn, data)] or None if
+    the bytes do not end at a chunk boundary / a packet is not a sequence of whole segments"""
+    import struct
+    chunks, err = c09.py_decode(wire_hex)
+    if err != "eof":
+        return None
+    out = []
+    for ch in chunks:
+        p = bytes.fromhex(ch)
+        while p:
+            if len(p) < 24:
+                return None
+            conv, cmd, frg, wnd, ts, sn, una, ln = struct.unpack("<IBBHIIII", p[:24])
+            if len(p) < 24 + ln:
+                return None
+            out.append((conv, cmd, sn, p[24:24 + ln]))
+            p = p[24 + ln:]
+    return out
+
+
+def smux_payload(stream):
+    import struct
+    data = b""
+    while len(stream) >= 8:
+        ver, cmd, ln, sid = struct.unpack("<BBHI", stream[:8])
+        if len(stream) < 8 + ln:
+            break
+        if cmd == 2:
+            data += stream[8:8 + ln]
+        stream = stream[8 + ln:]
+    return data
+
+
+def gen_move(rng, idx, salt=0):
+    """Black-box scenario for the real Listen/Accept path. 1..3 client sessions (ClientID, KCP conversation, one smux
+    stream, application bytes up and down), each moving over several carriers: sequentially, overlapping, after an idle gap
+    shorter than the retention, cut in mid-packet; a new carrier re-sends segments the old one already carried (as KCP
+    does) and continues; WebSocket message boundaries are arbitrary (one byte .. tens of KiB, many packets per message,
+    packets split across messages); the application behind Accept writes downstream data at arbitrary moments (also while
+    no carrier is attached); next to them carriers WITHOUT the token (wrong 8 bytes followed by 0..12 more, all at once or
+    trickled) and carriers that send fewer than 8 bytes, all of which then stay silent.
+    Returns impl ops, model ops, meta."""
+    sid_hex = scen_id(idx, salt)
     nsess = rng.randrange(1, 4)
     S = []
     for j in range(nsess):
         cid = "%016x" % rng.getrandbits(64)
         conv = rng.choice([rng.getrandbits(32), 1, 0xffffffff, 0x00f10000 | rng.getrandbits(16)])
-        app = bytes([(idx + j) & 255]) + bytes(rng.randrange(256) for _ in range(rng.choice([1, 5, 40, 200, 700])))
+        big = rng.random() < 0.25
+        app = bytes.fromhex(sid_hex) + bytes([j]) + bytes(rng.randrange(256) for _ in range(rng.choice([20000, 64000]) if big else rng.choice([1, 5, 40, 200, 700])))
         sid = rng.choice([1, 3, 7])
         stream = smux_frame(0, sid)
         pos = 0
         while pos < len(app):
-            n = rng.choice([1, 3, 16, 100, 400])
+            n = rng.choice([1000, 4000]) if big else rng.choice([1, 3, 16, 100, 400])
+            if pos == 0:
+                n = first_frame = rng.choice([5, 8, 16])   # the label by which the driver attributes the connection
             stream += smux_frame(2, sid, app[pos:pos + n])
             pos += n
         segs, pos = [], 0
         while pos < len(stream):
-            n = rng.choice([1, 7, 8, 20, 60, 300])
+            n = rng.choice([500, 700]) if big else rng.choice([1, 7, 8, 20, 60, 300])
+            if pos == 0:
+                # stream open + the whole first frame (smux hands a frame to the stream only when it is complete) in the first
+                # segment: the session is accepted and labelled as soon as that segment arrives
+                n = max(n, 16 + first_frame)
             segs.append(kcp_seg(conv, len(segs), stream[pos:pos + n], ts=rng.getrandbits(20)))
             pos += n
-        S.append(dict(cid=cid, conv=conv, app=app, segs=segs, sent=0, carriers=[], hops=rng.randrange(1, 4), mode=None))
+        down = bytes(rng.randrange(256) for _ in range(rng.choice([0, 1, 30, 300, 1200])))
+        S.append(dict(j=j, cid=cid, conv=conv, app=app, segs=segs, sent=0, carriers=[], hops=rng.randrange(1, 4), big=big,
+                      down=down, down_written=0))
     if nsess > 1 and rng.random() < 0.3:
         S[1]["conv"] = S[0]["conv"]      # same KCP conversation id in two sessions: only the ClientID tells them apart
         S[1]["segs"] = [kcp_seg(S[0]["conv"], k, s[24:]) for k, s in enumerate(S[1]["segs"])]
-    ops, mops = [], []
+    ops, mops = ["i" + sid_hex], []
     base = rng.choice([0, 5, 1700000000000])
     now = [base]
     ncar = [0]
     kinds = set()
+    tokenless = []      # dict(i, kind, must_close)
 
     def both(o, timed=False):
         ops.append(o)
         mops.append(o + (":%d" % now[0] if timed else ""))
 
-    def send(i, hexbytes):
+    def send_msgs(i, hexbytes, sizes):
+        """one impl op = one WebSocket message; the model gets the same bytes in pieces of at most 400 bytes (the read loop
+        does not depend on the fragmentation: C05_arrivals_concatenate)"""
         pos = 0
         while pos < len(hexbytes):
-            n = 2 * rng.choice([1, 5, 24, 30, 100, 1000])
-            now[0] += rng.choice([0, 1])
-            both("r%d:x%s" % (i, hexbytes[pos:pos + n]), timed=True)
+            n = 2 * rng.choice(sizes)
+            msg = hexbytes[pos:pos + n]
+            ops.append("r%d:x%s" % (i, msg))
+            for q in range(0, len(msg), 800):
+                now[0] += rng.choice([0, 1])
+                mops.append("r%d:x%s:%d" % (i, msg[q:q + 800], now[0]))
             pos += n
+
+    SMALL = [1, 5, 24, 30, 100, 1000]
+    BIG = [3000, 9000, 30000, 65536]
 
     def new_carrier(s):
         i = ncar[0]
         ncar[0] += 1
         both("n")
         s["carriers"].append(i)
-        send(i, TOKEN + s["cid"])
+        send_msgs(i, TOKEN + s["cid"], [3, 8, 16, 1000])
         return i
 
     def seg_hex(seg):
         return prefix(len(seg)) + seg.hex()
 
     def progress(s, i, upto, replay):
-        # re-send what the previous carrier carried (all of it, or a suffix / random part), then continue up to `upto`
         if replay == "all":
             idxs = list(range(0, s["sent"]))
         elif replay == "some":
@@ -353,38 +433,76 @@ def gen_move(rng, idx):
         idxs += list(range(s["sent"], upto))
         if rng.random() < 0.2:
             rng.shuffle(idxs)         # KCP copes with reordering
-        for k in idxs:
-            send(i, seg_hex(s["segs"][k]))
+        # the segments as one byte stream, cut into WebSocket messages of arbitrary sizes
+        send_msgs(i, "".join(seg_hex(s["segs"][k]) for k in idxs), BIG if (s["big"] or rng.random() < 0.15) else SMALL)
+        if s["big"]:
+            kinds.add("big-messages")
         s["sent"] = max(s["sent"], upto)
 
+    def app_write(s):
+        # the application behind Accept writes some of its downstream bytes (possible once the session was accepted)
+        if s["sent"] == 0 or s["down_written"] >= len(s["down"]):
+            return
+        n = rng.randrange(1, len(s["down"]) - s["down_written"] + 1)
+        ops.append("w%d:x%s" % (s["j"], s["down"][s["down_written"]:s["down_written"] + n].hex()))
+        s["down_written"] += n
+        kinds.add("downstream")
+
+    def add_tokenless():
+        i = ncar[0]
+        ncar[0] += 1
+        both("n")
+        kind = rng.choice(["wrong-token", "wrong-token", "wrong-token-trickled", "short"])
+        kinds.add(kind)
+        if kind == "short":
+            hdr = (TOKEN + "%016x" % rng.getrandbits(64))[:2 * rng.randrange(0, 8)]
+            if hdr:
+                send_msgs(i, hdr, [1, 3, 8])
+            tokenless.append(dict(i=i, kind=kind, must_close=False))
+        else:
+            bad = "%016x" % (int(TOKEN, 16) ^ (1 << rng.randrange(64)))
+            hdr = bad + "".join("%02x" % rng.randrange(256) for _ in range(rng.choice([0, 0, 1, 7, 8, 12, 40])))
+            send_msgs(i, hdr, [1] if kind == "wrong-token-trickled" else [8, 16, 1000])
+            tokenless.append(dict(i=i, kind=kind, must_close=True))
+            ops[-1] += "@k%d" % i     # ... and then it stays silent: the server must close it
+
     active = list(range(nsess))
-    cur = {}      # session -> current carrier
+    cur = {}
     while active:
+        if rng.random() < 0.15:
+            add_tokenless()
         j = rng.choice(active)
         s = S[j]
         last = s["hops"] <= 1
         upto = len(s["segs"]) if last else rng.randrange(s["sent"], len(s["segs"]) + 1)
         if j not in cur:
             cur[j] = new_carrier(s)
-            progress(s, cur[j], upto, None)
+            # kcp-go's receive window is 32 segments until acceptSessions has enlarged it: the first burst stays below that
+            # and the driver waits for the connection to be accepted before more is sent
+            first = min(len(s["segs"]), 25) if last else max(1, min(upto, 25))
+            progress(s, cur[j], first, None)
+            ops[-1] += "@a%d" % sum(1 for x in S if x["sent"] > 0)
+            if first < upto:
+                progress(s, cur[j], upto, None)
         else:
             mode = rng.choice(["sequential", "overlapping", "gap", "cut-mid-packet"])
             kinds.add(mode)
             old = cur[j]
             if mode == "sequential":
                 both("c%d" % old)
+                if rng.random() < 0.5:
+                    app_write(s)       # while no carrier is attached: the packets wait in the session's queue
                 cur[j] = new_carrier(s)
             elif mode == "overlapping":
                 cur[j] = new_carrier(s)
-                # the old carrier keeps sending for a while, too
                 if s["sent"] < upto:
-                    k = s["sent"]
-                    send(old, seg_hex(s["segs"][k]))
+                    send_msgs(old, seg_hex(s["segs"][s["sent"]]), SMALL)
             elif mode == "gap":
                 both("c%d" % old)
+                if rng.random() < 0.5:
+                    app_write(s)
                 g = rng.choice([20, 80, 250])
                 ops.append("g%d" % g)
-                # model: an idle gap of anything below the retention, the sweeper running in between
                 gm = min(rng.choice([g, 30000, RETENTION - 1]), max(0, RETENTION - 1 - (now[0] - base)))
                 k = now[0] + RETENTION // 2
                 while k < now[0] + gm:
@@ -394,25 +512,35 @@ def gen_move(rng, idx):
                 mops.append("v%d" % now[0])
                 cur[j] = new_carrier(s)
             else:
-                # the old carrier is cut in the middle of a segment (the partial chunk must not surface)
                 if s["sent"] < len(s["segs"]):
                     h = seg_hex(s["segs"][s["sent"]])
-                    cut = 2 * rng.randrange(1, len(h) // 2)
-                    send(old, h[:cut])
+                    send_msgs(old, h[:2 * rng.randrange(1, len(h) // 2)], SMALL)
                 both("c%d" % old)
                 cur[j] = new_carrier(s)
-            progress(s, cur[j], upto, rng.choice(["all", "all", "some", None]))
+            progress(s, cur[j], upto, rng.choice(["all", "all", "some", None]) if not s["big"] else None)
+        if rng.random() < 0.6:
+            app_write(s)
         s["hops"] -= 1
         if last:
-            # make sure everything was carried at least once in full, and always re-send from sn 0 on the last carrier:
-            # harmless for one session, but a session that was split on the move then shows up as a second connection
-            if len(s["carriers"]) > 1:
-                for k in range(len(s["segs"])):
-                    send(cur[j], seg_hex(s["segs"][k]))
+            if len(s["carriers"]) > 1 and not s["big"]:
+                # always re-send from sn 0 on the last carrier: harmless for one session, but a session that was split on
+                # the move then shows up as a second connection
+                send_msgs(cur[j], "".join(seg_hex(x) for x in s["segs"]), SMALL)
+            while s["down_written"] < len(s["down"]):
+                app_write(s)
             active.remove(j)
-    total = sum(len(s["app"]) for s in S)
-    ops.append("z@a%d@t%d" % (nsess, total))
-    return ops, mops, dict(sessions=[dict(cid=s["cid"], conv=s["conv"], app=s["app"].hex(), ncarriers=len(s["carriers"])) for s in S],
+    if rng.random() < 0.5:
+        add_tokenless()
+    total = sum(len(s["app"]) - 5 for s in S)
+    fin = "z@a%d@t%d" % (nsess, total)
+    for s in S:
+        if s["down"]:
+            fin += "@e%s=%d" % ("+".join(map(str, s["carriers"])), len(s["down"]))
+    fin += "".join("@k%d" % t["i"] for t in tokenless if t["must_close"])
+    ops.append(fin)
+    return ops, mops, dict(sid=sid_hex, ncar=ncar[0], tokenless=tokenless, model=not any(s["big"] for s in S),
+                           sessions=[dict(j=s["j"], cid=s["cid"], conv=s["conv"], app=s["app"].hex(), down=s["down"].hex(),
+                                          carriers=s["carriers"], last=cur[s["j"]]) for s in S],
                            kinds=sorted(kinds) or ["single-carrier"])
 
 
@@ -421,13 +549,14 @@ def gen_move_long(rng, idx, gap_ms=95000):
     waited for: thorough tier only); then a new carrier re-sends everything. The client map has forgotten the session
     (its queued downstream packets are gone) but kcp-go's session table has not: still ONE accepted connection whose
     stream continues — which is what the model's listener view says."""
+    sid_hex = scen_id(idx, 0xee)
     cid = "%016x" % rng.getrandbits(64)
     conv = rng.getrandbits(32)
-    app = bytes([idx & 255]) + bytes(rng.randrange(256) for _ in range(300))
+    app = bytes.fromhex(sid_hex) + bytes([0]) + bytes(rng.randrange(256) for _ in range(300))
     stream = smux_frame(0, 3) + b"".join(smux_frame(2, 3, app[i:i + 50]) for i in range(0, len(app), 50))
     segs = [kcp_seg(conv, k, stream[i:i + 40]) for k, i in enumerate(range(0, len(stream), 40))]
     half = len(segs) // 2
-    ops, mops = ["n", "r0:x" + TOKEN + cid], ["n", "r0:x%s:0" % (TOKEN + cid)]
+    ops, mops = ["i" + sid_hex, "n", "r0:x" + TOKEN + cid], ["n", "r0:x%s:0" % (TOKEN + cid)]
     now = 1
     for s in segs[:half]:
         h = prefix(len(s)) + s.hex()
@@ -442,29 +571,87 @@ def gen_move_long(rng, idx, gap_ms=95000):
         h = prefix(len(s)) + s.hex()
         ops.append("r1:x" + h); mops.append("r1:x%s:%d" % (h, now))
         now += 1
-    ops.append("z@a1@t%d" % len(app))
-    return ops, mops, dict(sessions=[dict(cid=cid, conv=conv, app=app.hex(), ncarriers=2)], kinds=["gap-beyond-retention"])
+    ops.append("z@a1@t%d" % (len(app) - 5))
+    return ops, mops, dict(sid=sid_hex, ncar=2, tokenless=[], model=True,
+                           sessions=[dict(j=0, cid=cid, conv=conv, app=app.hex(), down="", carriers=[0, 1], last=1)],
+                           kinds=["gap-beyond-retention"])
 
 
 def check_move(meta, d, md):
-    """the property on the implementation's answer (d) and the comparison with the model's listener view (md)"""
+    """the property on the black-box driver's answer (d) and the comparison with the model's listener view (md)"""
     bad = []
     sess = meta["sessions"]
-    streams = [] if d.get("st", "-") == "-" else [x[1:] for x in d["st"].split(",")]
+    got = [] if d.get("st", "-") == "-" else [x.split(":") for x in d["st"].split(",")]
+    got = [(int(j), x[1:]) for j, x in got]
     acc = int(d.get("accepted", "-1"))
-    want = sorted(s["app"] for s in sess)
+    want = {s["j"]: s["app"][10:] for s in sess}        # without the 5 label bytes the driver consumed
+    if int(d.get("stray", "0")) > 0:
+        bad.append(("upstream-foreign-packet", "the server accepted %s connection(s) whose stream does not begin like any session's" % d["stray"]))
     if acc > len(sess):
         bad.append(("session-split-on-move", "%d client session(s), each moving over its carriers, surfaced as %d accepted connections" % (len(sess), acc)))
     elif acc < len(sess):
-        bad.append(("session-merged", "%d client sessions with distinct ClientIDs surfaced as %d accepted connection(s)" % (len(sess), acc)))
+        mixed = [st for j, st in got if not want.get(j, "").startswith(st)]
+        if mixed:
+            bad.append(("session-merged", "%d client sessions with distinct ClientIDs surfaced as %d accepted connection(s), one of them "
+                        "delivering bytes that are no prefix of its session's stream" % (len(sess), acc)))
+        else:
+            bad.append(("session-not-accepted", "%d client session(s) but only %d accepted connection(s): a session's packets never made "
+                        "a connection" % (len(sess), acc)))
     else:
-        if sorted(streams) != want:
-            for st in streams:
-                if st not in want:
-                    pre = [w for w in want if w.startswith(st)]
-                    bad.append(("session-stream-broken", "an accepted connection delivered %d bytes that are %s of any session's stream" % (
-                        len(st) // 2, "only a strict prefix (the stream did not continue on the next carrier)" if pre else "not a prefix")))
+        for j, st in got:
+            w = want.get(j)
+            if w is None or st == w:
+                continue
+            if w.startswith(st):
+                bad.append(("upstream-lost-or-duplicated", "the connection of session %d delivered only %d of the %d bytes its client sent: upstream "
+                            "packets were lost (the stream did not continue)" % (j, len(st) // 2, len(w) // 2)))
+            else:
+                other = [jj for jj, ww in want.items() if jj != j and st[:40] and st[:40] in ww]
+                bad.append(("upstream-wrong-session" if other else "session-stream-broken",
+                            "the connection of session %d delivered bytes that are not a prefix of what its client sent%s" % (
+                                j, " (they belong to session %d)" % other[0] if other else "")))
+            break
+    # carriers without the token: closed by the server, nothing written to them
+    for t in meta["tokenless"]:
+        st, wire = d.get("k%d" % t["i"], "open:x").split(":")
+        if wire[1:]:
+            bad.append(("no-token-carrier-got-data", "carrier %d (%s) received downstream bytes" % (t["i"], t["kind"])))
+        if t["must_close"] and st != "closed":
+            bad.append(("tokenless-carrier-not-closed", "carrier %d sent 8 bytes that are not the turbotunnel token (%s) and then stayed silent: "
+                        "the server did not close it" % (t["i"], t["kind"])))
+    # downstream: what the carriers of a session received decodes to KCP segments of that session's conversation whose
+    # data, in sequence-number order, is a prefix of what the application behind Accept wrote to that session
+    by_conv = {}
+    for s in sess:
+        by_conv.setdefault(s["conv"], []).append(s)
+    for s in sess:
+        segs = {}
+        for i in s["carriers"]:
+            st, wire = d.get("k%d" % i, "open:x").split(":")
+            ks = kcp_push_segments(wire[1:])
+            if ks is None:
+                bad.append(("downstream-not-framed", "carrier %d downstream is not a sequence of whole packets of whole KCP segments" % i))
+                continue
+            for conv, cmd, sn, data in ks:
+                if conv != s["conv"]:
+                    bad.append(("downstream-wrong-session", "carrier %d (ClientID %s, conversation %d) was written a KCP segment of conversation %d" % (
+                        i, s["cid"], s["conv"], conv)))
                     break
+                if cmd == 81:
+                    segs.setdefault(sn, data)
+        stream, sn = b"", 0
+        while sn in segs:
+            stream += segs[sn]
+            sn += 1
+        echoed = smux_payload(stream).hex()
+        if not s["down"].startswith(echoed):
+            owner = [x["j"] for x in sess if x is not s and echoed[:16] and echoed[:16] in x["down"]]
+            bad.append(("downstream-wrong-session" if owner else "downstream-foreign-packet",
+                        "the carriers of session %d were written application data that is not a prefix of what was written to that session%s" % (
+                            s["j"], " (it was written to session %d)" % owner[0] if owner else "")))
+        elif echoed != s["down"] and not bad:
+            bad.append(("downstream-not-delivered", "session %d: only %d of the %d bytes the application wrote reached the session's carriers, "
+                        "although the last one stayed attached" % (s["j"], len(echoed) // 2, len(s["down"]) // 2)))
     macc = [] if md.get("acc", "-") == "-" else md["acc"].split(",")
     return bad, len(macc)
 
@@ -596,8 +783,26 @@ def fields_equal(meta, d, md, states=True):
     return True
 
 
+def build_inpackage():
+    """The test binary of server/lib with ONLY this area's in-package driver injected (its own overlay map), so that
+    another area's in-package file that stops compiling after a refactor cannot take this view down with it."""
+    import json
+    vlib.go_prepare()
+    rel = os.path.join("server", "lib", "zz_verif_c05_test.go")
+    ov = os.path.join(vlib.GOB, "overlay_c05.json")
+    data = json.dumps({"Replace": {os.path.join(vlib.REPO, rel): os.path.join(vlib.OVERLAY_SRC, rel)}}, indent=1)
+    if not os.path.exists(ov) or open(ov).read() != data:
+        open(ov, "w").write(data)
+    out = os.path.join(vlib.GOB, "bin", "serverlib_c05.test")
+    os.makedirs(os.path.dirname(out), exist_ok=True)
+    rc, o, e = vlib.sh(["go", "test", "-c", "-vet=off", "-tags", "verif", "-modfile=" + os.path.join(vlib.GOB, "go.mod"), "-overlay", ov,
+                        "-ldflags=-checklinkname=0", "-o", out, "./server/lib"], cwd=vlib.REPO, env=vlib.GOENV, timeout=900)
+    if rc != 0:
+        raise vlib.GoBuildError("go test -c ./server/lib (in-package C05 driver) failed:\n%s" % (o + e)[-3000:])
+    return out
+
+
 def run(ctx):
-    exe = vlib.go_test_build("./server/lib", name="serverlib.test")
     env = dict(os.environ, VERIF_DRIVER="c05")
     ctx.assumptions += ["model = coq/Model/CarrierLayer.v over Model/Encap.v; QueuePacketConn queues as bounded FIFOs (proved for the code in C17)",
                         "timed model = coq/Model/CarrierTimed.v: the carrier layer composed with C17's client-map model (explicit clock); the driver's "
@@ -606,24 +811,37 @@ def run(ctx):
                         "which of two simultaneously open carriers of one ClientID takes a packet is the scheduler's choice: checked relationally "
                         "against the model's log of packets taken off the queues",
                         "kcp-go's session demultiplexing (by RemoteAddr().String() = ClientID, conversation id, sn) is modelled (listener_view) and "
-                        "observed through the real Accept path with hand-made KCP/smux segments; KCP's ARQ and smux are libraries, not modelled"]
-    ctx.trusted.append("harness/overlay/server/lib/zz_verif_c05_test.go (real httpHandler + gorilla/websocket carriers; driver-owned QueuePacketConn for "
-                       "run/trun, the wiring of Transport.Listen with kcp.ServeConn/acceptSessions/Accept for move)")
+                        "observed through the real Listen/Accept path with hand-made KCP/smux segments; KCP's ARQ and smux are libraries, not modelled"]
+    ctx.trusted.append("harness/overlay/zz_verif/c05bb/main.go: black-box driver, exported API only (Transport.Listen + Accept, gorilla/websocket "
+                       "carriers); harness/overlay/server/lib/zz_verif_c05_test.go: second, in-package view (real httpHandler with a driver-owned "
+                       "QueuePacketConn: packets instead of streams)")
     quick = ctx.tier == "quick"
-    n = 220 if quick else 2500
-    scen = [gen_scen(ctx.rng, i) for i in range(n)]
-    nt = 70 if quick else 700
-    timed = [(scen[i], timed_long(ctx.rng, scen[i][1])) for i in range(nt)]
-    TMO = 2000
-    expiry = [gen_expiry(ctx.rng, i, TMO) for i in range(3 if quick else 16)]
-    moves = [gen_move(ctx.rng, i) for i in range(40 if quick else 400)]
+    # ---- the black-box view: always available (nothing unexported is used)
+    bb = vlib.go_build("./zz_verif/c05bb")
+    moves = [gen_move(ctx.rng, i) for i in range(44 if quick else 400)]
     if not quick:
         # the real one-minute retention, really exceeded (95 s without a carrier): first in the list so that it overlaps the rest
         moves = [gen_move_long(ctx.rng, i) for i in range(2)] + moves
+    # ---- the in-package view (packet level): optional
+    try:
+        exe = build_inpackage()
+    except vlib.GoBuildError as e:
+        exe = None
+        note = ("in-package view unavailable: harness/overlay/server/lib/zz_verif_c05_test.go no longer compiles against this tree (an internal "
+                "refactor of server/lib?); the black-box view (exported API) still ran. " + str(e)[-600:].replace("\n", " | "))
+        vlib.log("C05 note: " + note[:400])
+        ctx.extra["notes"] = [note]
+        ctx.assumptions.append(note[:300])
+    n = 220 if quick else 2500
+    scen = [gen_scen(ctx.rng, i) for i in range(n)] if exe else []
+    nt = (70 if quick else 700) if exe else 0
+    timed = [(scen[i], timed_long(ctx.rng, scen[i][1])) for i in range(nt)]
+    TMO = 2000
+    expiry = [gen_expiry(ctx.rng, i, TMO) for i in range(3 if quick else 16)] if exe else []
     mlines = ["carrierlayer run " + ",".join(mops) for _, mops, _ in scen]
     mlines += ["carrierlayer trun %d %s" % (RETENTION, ",".join(tm)) for _, tm in timed]
     mlines += ["carrierlayer trun %d %s" % (TMO, ",".join(mops)) for _, mops, _ in expiry]
-    mlines += ["carrierlayer trun %d %s" % (RETENTION, ",".join(mops)) for _, mops, _ in moves]
+    mlines += ["carrierlayer trun %d %s" % (RETENTION, ",".join(mops) if meta["model"] else "n") for _, mops, meta in moves]
     mout = vlib.run_model(mlines)
 
     def wait_for_closes(ops, mo, ncar):
@@ -639,11 +857,19 @@ def run(ctx):
     lines += ["carrierlayer trun %d %s" % (RETENTION, ",".join(wait_for_closes(sc[0], mo, len(sc[2]["carriers"]))))
               for (sc, _), mo in zip(timed, mout[len(scen):])]
     lines += ["carrierlayer trun %d %s" % (TMO, ",".join(ops)) for ops, _, _ in expiry]
-    lines += ["carrierlayer move " + ",".join(ops) for ops, _, _ in moves]
-    rc, out, err = vlib.run_impl(exe, lines, args=["-test.run", "^TestVerifC05Driver$"], env=env, timeout=1800)
-    if rc != 0 or len(out) != len(lines):
-        ctx.violation("driver-crash", "server carrier driver died rc=%s: %s" % (rc, err[-800:]), dict(stderr=err[-3000:]))
+    out = []
+    if exe:
+        rc, out, err = vlib.run_impl(exe, lines, args=["-test.run", "^TestVerifC05Driver$"], env=env, timeout=1800)
+        if rc != 0 or len(out) != len(lines):
+            ctx.violation("driver-crash", "server carrier driver died rc=%s: %s" % (rc, err[-800:]), dict(stderr=err[-3000:]))
+            return
+    blines = ["carrierlayer move " + ",".join(ops) for ops, _, _ in moves]
+    rc, bout, err = vlib.run_impl(bb, blines, timeout=1800)
+    if rc != 0 or len(bout) != len(blines):
+        ctx.violation("driver-crash", "black-box server driver died rc=%s: %s" % (rc, err[-800:]), dict(stderr=err[-3000:]))
         return
+    lines += blines
+    out += bout
     pos = 0
     # ---- untimed scenarios
     for (ops, mops, meta), line, o, ml, mo in zip(scen, lines, out, mlines, mout):
@@ -714,11 +940,11 @@ def run(ctx):
         if not fields_equal(meta, d, md):
             ctx.not_shown("correspondence carrierlayer (expiry): model and implementation disagree: case=%s impl=%s model=%s" % (ml[:500], o[:300], mo[:300]))
     pos += len(expiry)
-    # ---- moving sessions through Accept
+    # ---- moving sessions through the real Listen / Accept (black box)
     for j, (ops, mops, meta) in enumerate(moves):
         line, o, ml, mo = lines[pos + j], out[pos + j], mlines[pos + j], mout[pos + j]
         ctx.count(line, kind="move:" + "+".join(meta["kinds"]))
-        rep = dict(case=line[:12000], impl=o[:3000], model=mo[:3000], model_case=ml[:12000])
+        rep = dict(case=line[:20000], impl=o[:3000], model=mo[:3000], model_case=ml[:12000], driver="c05bb")
         if o.startswith("!"):
             ctx.violation("request-" + o.split(" ")[0].strip("!:"), "driver failure: " + o[:200], rep)
             continue
@@ -726,10 +952,18 @@ def run(ctx):
         bad, macc = check_move(meta, d, md)
         for key, text in bad:
             ctx.violation(key, text, rep)
+        if not meta["model"]:
+            continue
         if macc != len(meta["sessions"]):
             ctx.not_shown("model: listener view has %d connections for %d sessions: case=%s model=%s" % (macc, len(meta["sessions"]), ml[:400], mo[:300]))
         if not bad and int(d.get("accepted", -1)) != macc:
             ctx.not_shown("correspondence carrierlayer (move): accepted connections differ: case=%s impl=%s model=%s" % (ml[:400], o[:200], mo[:300]))
+        # carriers without the token: closed by the server exactly when the model says so
+        for t in meta["tokenless"]:
+            ist = d.get("k%d" % t["i"], "open:x").split(":")[0]
+            mst = md.get("k%d" % t["i"], "token::").split(":")[0]
+            if t["must_close"] and (mst == "dead") != (ist == "closed") and not bad:
+                ctx.not_shown("correspondence carrierlayer (move): carrier %d: model %s, implementation %s: case=%s" % (t["i"], mst, ist, ml[:400]))
     sample = [(l, m) for l, m in zip(mlines, mout) if len(l) < 600][:20]
     sample += [(l, m) for l, m in zip(mlines[len(scen):], mout[len(scen):]) if len(l) < 900][:12]
     for i in vlib.coq_crosscheck(sample):
@@ -738,14 +972,16 @@ def run(ctx):
 
 
 def replay(ctx, doc):
-    exe = vlib.go_test_build("./server/lib", name="serverlib.test")
     env = dict(os.environ, VERIF_DRIVER="c05")
     bad = 0
     for v in doc.get("violations", []):
         case = v["replay"].get("case")
         if not case:
             continue
-        rc, out, err = vlib.run_impl(exe, [case], args=["-test.run", "^TestVerifC05Driver$"], env=env)
-        print("case: %s\n impl: %s" % (case[:400], out[0] if out else "!died"))
+        if case.startswith("carrierlayer move "):
+            rc, out, err = vlib.run_impl(vlib.go_build("./zz_verif/c05bb"), [case])
+        else:
+            rc, out, err = vlib.run_impl(build_inpackage(), [case], args=["-test.run", "^TestVerifC05Driver$"], env=env)
+        print("case: %s\n impl: %s" % (case[:400], out[0][:2000] if out else "!died"))
         bad += 1
     return 1 if bad else 0
